@@ -68,8 +68,8 @@ def gen_alphabet(rng):
 
 
 OPS = ["a", "f", "r", "c", "d", "l", "g", "t", "u", "x", "o", "v", "p"]
-BASEW = {"a": 40, "f": 18, "r": 8, "c": 3, "d": 10, "l": 5, "g": 3, "t": 1, "u": 4, "x": 1, "o": 1, "v": 2, "p": 1}
-OPTIONAL = {"r": (3, 4), "c": (1, 2), "d": (3, 4), "l": (1, 2), "g": (3, 4), "t": (1, 3), "u": (3, 4),
+BASEW = {"a": 40, "f": 18, "r": 8, "c": 3, "d": 10, "l": 5, "g": 3, "t": 2, "u": 4, "x": 1, "o": 1, "v": 2, "p": 1}
+OPTIONAL = {"r": (3, 4), "c": (1, 2), "d": (3, 4), "l": (1, 2), "g": (3, 4), "t": (1, 2), "u": (3, 4),
             "x": (1, 4), "o": (1, 5), "v": (1, 3), "p": (1, 4)}
 
 
